@@ -83,7 +83,7 @@ fn main() {
                 let (c2, e2, p2, w2) = (cfg.clone(), exp.clone(), payloads.clone(), work.clone());
                 let res = rt.block_on(async move {
                     tokio::spawn(async move {
-                        match ks { 8 => open_and_compare::<8>(c2, w2, nkeys, e2, p2, lazy).await, 32 => open_and_compare::<32>(c2, w2, nkeys, e2, p2, lazy).await, _ => open_and_compare::<4>(c2, w2, nkeys, e2, p2, lazy).await }
+                        match ks { 8 => open_and_compare::<8>(c2, w2, nkeys, e2, p2, lazy).await, 16 => open_and_compare::<16>(c2, w2, nkeys, e2, p2, lazy).await, 32 => open_and_compare::<32>(c2, w2, nkeys, e2, p2, lazy).await, _ => open_and_compare::<4>(c2, w2, nkeys, e2, p2, lazy).await }
                     }).await
                 });
                 opened += 1;
@@ -123,7 +123,7 @@ fn main() {
             let (c2, e2, p2, w2) = (cfg.clone(), exp.clone(), payloads.clone(), work.clone());
             let res = rt.block_on(async move {
                 tokio::spawn(async move {
-                    match ks { 8 => open_and_compare::<8>(c2, w2, nkeys, e2, p2, false).await, 32 => open_and_compare::<32>(c2, w2, nkeys, e2, p2, false).await, _ => open_and_compare::<4>(c2, w2, nkeys, e2, p2, false).await }
+                    match ks { 8 => open_and_compare::<8>(c2, w2, nkeys, e2, p2, false).await, 16 => open_and_compare::<16>(c2, w2, nkeys, e2, p2, false).await, 32 => open_and_compare::<32>(c2, w2, nkeys, e2, p2, false).await, _ => open_and_compare::<4>(c2, w2, nkeys, e2, p2, false).await }
                 }).await
             });
             let label = json!({"dir": dir.file_name().unwrap().to_string_lossy(), "patched": what});
